@@ -105,7 +105,8 @@ class Explorer(object):
 
     def fail(self, cid, D, clauses, call=None, groups=None, species=None, extra=None):
         self.res.oracle_failures.append(dict(case=cid, clauses=clauses[:5], call=call,
-                                             input=core.dataset_payload(D, groups, species), extra=extra))
+                                             input=core.dataset_payload(D, groups, species), extra=extra,
+                                             _D=(D if groups is None and species is None else None)))
 
     def finish(self, custom=None):
         """run the driver on everything submitted and compare"""
